@@ -139,9 +139,200 @@ def evaluate(ctx, items):
     rep.count("correspondence_mismatches", None, corr_bad)
 
 
+# ------------------------------------------------------------------ values: the tree's documented meaning vs SQLite
+EVAL_KEYS = ["+", "-", "*", "/", "%", "<", "<=", ">", ">=", "=", "==", "!=", "<>", "and", "or", "&", "|",
+             "u-", "u~", "not", "between", "not between"]
+ROWS = [(None, 0, 1), (1, None, -2), (3, 2, None), (0, 0, 0), (-1, 5, 2), (7, -3, 4), (None, None, None), (2, 2, 2)]
+
+
+class EvalGen(G.ExprGen):
+    """expressions SQLite can evaluate exactly: three integer columns, small integers, NULL, TRUE / FALSE"""
+
+    def atom(self, kinds=None):
+        r = self.rng.random()
+        if r < 0.5:
+            return ("col", self.rng.choice(["x1", "x2", "x3"]))
+        if r < 0.8:
+            return ("int", self.rng.randint(0, 9))
+        if r < 0.9:
+            return ("null",)
+        return ("bool", self.rng.random() < 0.5)
+
+    def col(self):
+        return ("col", self.rng.choice(["x1", "x2", "x3"]))
+
+    def random(self, depth):
+        if depth <= 0 or self.rng.random() < 0.15:
+            return self.atom()
+        key = self.rng.choice(self.all_keys())
+        return self.node(key, lambda: self.random(depth - 1))
+
+
+class NotEvaluable(Exception):
+    pass
+
+
+def _and3(vals):
+    if any(v is not None and v == 0 for v in vals):
+        return 0
+    if any(v is None for v in vals):
+        return None
+    return 1
+
+
+def _or3(vals):
+    if any(v is not None and v != 0 for v in vals):
+        return 1
+    if any(v is None for v in vals):
+        return None
+    return 0
+
+
+def eval_tree(t, row):
+    """value of a parse tree under the documented meaning of the operator names (integers, NULL, 3-valued logic)"""
+    if t is True:
+        return 1
+    if t is False:
+        return 0
+    if isinstance(t, int):
+        return t
+    if isinstance(t, str):
+        if t in row:
+            return row[t]
+        raise NotEvaluable(t)
+    if isinstance(t, dict) and len(t) == 1:
+        (k, v), = t.items()
+        if k == "null":
+            return None
+        args = v if isinstance(v, list) else [v]
+        if k in ("and", "or"):
+            vals = [eval_tree(a, row) for a in args]
+            return _and3(vals) if k == "and" else _or3(vals)
+        vals = [eval_tree(a, row) for a in args]
+        if k == "missing":
+            return int(vals[0] is None)
+        if k == "exists":
+            return int(vals[0] is not None)
+        if k in ("between", "not_between"):
+            a, lo, hi = vals
+            ge = None if (a is None or lo is None) else int(a >= lo)
+            le = None if (a is None or hi is None) else int(a <= hi)
+            r = _and3([ge, le])
+            return r if k == "between" else (None if r is None else int(not r))
+        if any(x is None for x in vals):
+            return None
+        if k == "add":
+            return sum(vals)
+        if k == "mul":
+            out = 1
+            for x in vals:
+                out *= x
+            return out
+        if k == "binary_and":
+            out = vals[0]
+            for x in vals[1:]:
+                out &= x
+            return out
+        if k == "binary_or":
+            out = vals[0]
+            for x in vals[1:]:
+                out |= x
+            return out
+        if len(vals) == 1:
+            x = vals[0]
+            if k == "neg":
+                return -x
+            if k == "pos":
+                return x
+            if k == "binary_not":
+                return ~x
+            if k == "not":
+                return int(x == 0)
+            raise NotEvaluable(k)
+        if len(vals) == 2:
+            a, b = vals
+            if k == "sub":
+                return a - b
+            if k == "div":
+                return None if b == 0 else (abs(a) // abs(b)) * (1 if (a >= 0) == (b >= 0) else -1)
+            if k == "mod":
+                return None if b == 0 else (abs(a) % abs(b)) * (1 if a >= 0 else -1)
+            if k in ("lt", "lte", "gt", "gte", "eq", "neq"):
+                return int({"lt": a < b, "lte": a <= b, "gt": a > b, "gte": a >= b, "eq": a == b, "neq": a != b}[k])
+        raise NotEvaluable(k)
+    raise NotEvaluable(repr(t)[:40])
+
+
+def sqlite_values(ctx):
+    """the second half of the property: evaluating the returned tree with the documented meaning of its operator
+    names gives, on every row of a test table, the value SQLite computes for the text (this also checks the
+    reference operator order of tools/ref.py against SQLite itself)"""
+    import sqlite3
+    rep = ctx.rep
+    R = C.real()
+    glv = gen_level(ctx.gen)
+    keys = [k for k in EVAL_KEYS if k in {o["key"] for o in ctx.gen["ops"]}]
+    g = EvalGen(ctx.rng, keys)
+    con = sqlite3.connect(":memory:")
+    con.execute("create table t (x1 integer, x2 integer, x3 integer)")
+    con.executemany("insert into t values (?, ?, ?)", ROWS)
+    rows = [dict(zip(("x1", "x2", "x3"), r)) for r in ROWS]
+    items = []
+    for triple, s in g.depth2():
+        items.append(s)
+    for _ in range(1500 if ctx.quick else 40000):
+        items.append(g.random(ctx.rng.choice([2, 3, 3, 4])))
+    # BETWEEN sits where the LIBRARY puts it (the property takes that level as given, SQLite has it at the equality
+    # level): expressions that contain it are written fully parenthesised, so both readings coincide
+    written = [G.write(s, "full" if any(k in ("between", "not between") for k in G.ops_of(s)) else
+                       ctx.rng.choice(["minimal", "minimal", "redundant"]), ctx.rng) for s in items]
+    answers = ctx.driver.batch([{"op": "expr", "e": e} for e in written]) if ctx.driver else []
+    for s, e, ans in zip(items, written, answers):
+        if "error" in ans:
+            raise C.InfraError("driver: " + ans["error"])
+        text = ans["sql"]
+        r = R.parse_raw("SELECT " + text)
+        if r[0] != "ok":
+            rep.count("sqlite", "rejected-by-parse")
+            continue
+        tree = r[1]["select"]["value"] if isinstance(r[1].get("select"), dict) and "value" in r[1]["select"] else None
+        if tree is None:
+            continue
+        if C.cdump(C.canon(tree)) != C.cdump(C.canon(G.spec(e))):
+            rep.count("sqlite", "skipped-structure-already-reported")
+            continue
+        if '"missing"' in C.cdump(C.canon(tree)) or '"exists"' in C.cdump(C.canon(tree)):
+            # the documented folding of a comparison with a bare NULL (sanctioned by C10 / C11) is not SQL's 3-valued `=`
+            rep.count("sqlite", "skipped-null-comparison-folding")
+            continue
+        try:
+            got = [v[0] for v in con.execute("select " + text + " from t order by rowid")]
+        except sqlite3.Error as ex:
+            rep.count("sqlite", "sqlite-error")
+            continue
+        try:
+            mine = [eval_tree(tree, row) for row in rows]
+        except NotEvaluable:
+            rep.count("sqlite", "not-evaluable")
+            continue
+        except (OverflowError, ValueError):
+            continue
+        if any(isinstance(v, float) or (v is not None and abs(v) > 2 ** 62) for v in got):
+            rep.count("sqlite", "skipped-overflow")
+            continue
+        rep.case("sqlite:" + text)
+        rep.count("sqlite", "compared")
+        if got != mine:
+            root = next(iter(tree)) if isinstance(tree, dict) else "atom"
+            rep.finding("sqlite-value-differs:" + root,
+                        "SQLite evaluates %r to %s on the test table, the tree %s means %s" % (text[:160], got, C.cdump(C.canon(tree))[:200], mine),
+                        {"sql": "SELECT " + text, "kind": "sqlite", "text": text})
+
+
 def run(ctx):
     items = cases(ctx)
     evaluate(ctx, items)
+    sqlite_values(ctx)
 
 
 def search(ctx):
@@ -156,6 +347,17 @@ def search(ctx):
 
 def replay(ctx, payload):
     R = C.real()
+    if payload.get("kind") == "sqlite":
+        import sqlite3
+        con = sqlite3.connect(":memory:")
+        con.execute("create table t (x1 integer, x2 integer, x3 integer)")
+        con.executemany("insert into t values (?, ?, ?)", ROWS)
+        got = [v[0] for v in con.execute("select " + payload["text"] + " from t order by rowid")]
+        tree = R.parse_raw(payload["sql"])[1]["select"]["value"]
+        mine = [eval_tree(tree, dict(zip(("x1", "x2", "x3"), r))) for r in ROWS]
+        print(got)
+        print(mine)
+        return got != mine
     r = R.parse_raw(payload["sql"])
     real = {"ok": C.canon(r[1]["select"]["value"])} if r[0] == "ok" else {"$err": r[1]}
     print("sql:", payload["sql"])
